@@ -83,6 +83,11 @@ Leave(s) ==
   IF ~s.joined \/ s.gb THEN Mk(s, NoRe)
   ELSE Mk([s EXCEPT !.gb = TRUE], [NoRe EXCEPT !.out = <<[t |-> "goodbye"]>>])
 
+\* the transport refuses the GOODBYE (e.g. a closing message beyond its size limit): leave() fails, nothing was said, so the
+\* session has not begun to leave (a router GOODBYE is still answered, a later leave() still says GOODBYE)
+LeaveFails(s, why) ==
+  IF ~s.joined \/ s.gb THEN Mk(s, NoRe) ELSE Mk(s, [NoRe EXCEPT !.exc = why])
+
 Disconnect(s) == Mk(s, [NoRe EXCEPT !.closes = IF s.tr THEN 1 ELSE 0])
 
 Lost(s) ==
@@ -273,6 +278,7 @@ Next ==
            ELSE Apply(Rx(s, m, U0, "value"))
   \/ s.tr /\ Apply(Lost(s))
   \/ s.hello /\ Apply(Leave(s))
+  \/ s.hello /\ Apply(LeaveFails(s, "PayloadExceededError"))
   \/ s.hello /\ Apply(Disconnect(s))
   \/ s.hello /\ s.nreq < MaxReq /\
        \/ \E p \in BOOLEAN : Apply(Call(s, p))
